@@ -10,6 +10,7 @@
     (other states, other shapes, other time ranges), interleaved solver objects.
 """
 import json
+import warnings
 import os
 import sys
 
@@ -420,6 +421,49 @@ def relational(rep, rng, tier):
             io = getattr(sv._integrator, "options", {})
             if sv.options[key] != given[key] or sv.options[key] != frs.options[key] or (key != "method" and key in io and io[key] != given[key]):
                 viol.append((f"options-kept:{key}", f"solver built with {old_m} (atol 1e-11) given options {given}: option {key} is {sv.options[key]} (integrator: {io.get(key)}), a fresh solver has {frs.options[key]}", {"old": old_m, "new": new_m, "key": key}))
+    # Monte-Carlo solvers: options given to an existing solver (dictionary assigned, items set) are the options its two layers
+    # work with - the jump search and the ODE integrator underneath - and a run then equals that of a solver built with them
+    for cls_name in ("MCSolver", "NonMarkovianMCSolver"):
+        def mk(o):
+            if cls_name == "MCSolver":
+                return qutip.MCSolver(qutip.sigmax(), [0.7 * qutip.sigmam()], options=o)
+            return qutip.NonMarkovianMCSolver(qutip.sigmax(), [(qutip.sigmam(), 0.5)], options=o)
+        want = {"atol": 1e-12, "rtol": 1e-10, "norm_tol": 1e-7, "norm_t_tol": 1e-9}
+        try:
+            with warnings.catch_warnings():
+                warnings.simplefilter("ignore")
+                with core.time_limit(120):
+                    base_o = {"progress_bar": "", "keep_runs_results": True, "store_states": True}
+                    built = mk(dict(base_o, **want))
+                    assigned = mk(dict(base_o))
+                    assigned.run(qutip.basis(2, 0), [0, 0.2], ntraj=1, seeds=[3])
+                    assigned.options = dict(want)
+                    itemwise = mk(dict(base_o))
+                    itemwise.options = {"norm_steps": 7}
+                    for k_, v_ in want.items():
+                        itemwise.options[k_] = v_
+                    runs = {nm_: sl.run(qutip.basis(2, 0), [0, 1.0, 2.5], ntraj=2, seeds=[11, 12]) for nm_, sl in (("built", built), ("assigned", assigned), ("itemwise", itemwise))}
+        except core.CaseTimeout:
+            raise
+        except Exception as e:
+            viol.append((f"mc-options-raises:{cls_name}", f"{type(e).__name__}: {e}"[:200], {}))
+            continue
+        rep.count("relational-mc-options")
+        for nm_, sl in (("assigned", assigned), ("itemwise", itemwise)):
+            for k_, v_ in want.items():
+                rep.evaluations += 1
+                layers = {"solver.options": sl.options[k_], "jump search": sl._integrator.options[k_]}
+                inner = getattr(sl._integrator, "_integrator", None)
+                if inner is not None and k_ in getattr(inner, "options", {}):
+                    layers["ODE integrator"] = inner.options[k_]
+                bad = {a: b for a, b in layers.items() if b != v_}
+                if bad:
+                    viol.append((f"mc-options-kept:{k_}", f"{cls_name}: option {k_}={v_} given to an existing solver ({nm_}) is not what these layers work with: {bad}", {"solver": cls_name, "how": nm_, "key": k_}))
+            for j in range(2):
+                ct_a, ct_b = list(runs[nm_].col_times[j]), list(runs["built"].col_times[j])
+                if len(ct_a) != len(ct_b) or (ct_a and max(abs(x - y) for x, y in zip(ct_a, ct_b)) > 1e-9):
+                    viol.append((f"mc-options-run:{cls_name}", f"{cls_name}: a solver given the options afterwards ({nm_}) has collapse times {ct_a}, one built with them {ct_b} (seed {11 + j})", {"solver": cls_name, "how": nm_}))
+                    break
     rep.notes["relational_methods"] = methods
     return viol
 
